@@ -41,6 +41,11 @@ def build_mesh(spec):
         if kind == "device":
             dev = zoo.build_device(spec["device"])
             return dev.mesh, {"kind": kind, "device": dev}
+        if kind == "lattice":
+            # exactly regular row-shifted lattice (no jitter): hx = 1, row spacing hy
+            pts = np.array([[c + 0.5 * (r % 2), r * spec["hy"]] for r in range(spec["ny"]) for c in range(spec["nx"])], dtype=float)
+            el = _triangulate(pts)
+            return Mesh.from_triangulation(pts, el), {"kind": kind}
         if kind == "hex":
             pts = _hex_points(spec["nx"], spec["ny"], spec.get("jitter", 0.0), rng) * spec.get("scale", 1.0)
             el = _triangulate(pts)
